@@ -1,6 +1,6 @@
 """C03 — labels stay attached to their data under every matrix operation history.
 
-One generic history machine (sim/matmodel.py) drives 17 labelled matrix classes
+One generic history machine (sim/matmodel.py) drives 25 labelled matrix classes
 through random histories of structural operations on every labelled axis, each
 operation executed in all of its forms (axis-specific / axis-generic, mutating /
 non-mutating) on clones of the current object, against an entity-tracking list
@@ -24,13 +24,13 @@ from ..snapshot import snap, diff
 PROP = "C03"
 RUNS = {"quick": 60000, "thorough": 2000000}
 WALL = {"quick": 200, "thorough": 2400}
-RULE = ("scenario = one of 17 labelled matrix classes, a label configuration (which optional label arrays exist, unique or duplicated "
+RULE = ("scenario = one of 25 labelled matrix classes, a label configuration (which optional label arrays exist, unique or duplicated "
         "names, initial sizes 1-5 per axis, initially grouped or not) and a history of <= 12 structural operations (select, delete/remove, "
         "insert/incorp, adjoin/append, concat, reorder, lexsort, sort, group, ungroup, is_grouped) on any labelled axis with argument forms "
         "int / negative int / slice / list / ndarray / boolean mask / empty; every operation runs in each of its specific/generic and "
         "mutating/non-mutating forms; distinct = (class, op-kind x axis sequence, argument forms, label configuration class); non-trivial = "
         "at least one operation accepted by the class")
-COMPONENTS = {"real": ["17 pybrops labelled matrix classes (core.mat, popgen.gmat, popgen.bvmat, popgen.cmat, model.vmat): all structural methods",
+COMPONENTS = {"real": ["25 pybrops labelled matrix classes (core.mat, popgen.gmat, popgen.bvmat, popgen.cmat, model.vmat): all structural methods",
                        "DenseUnphasedGenotyping / DenseMaskedPhasedGenotyping / DenseMaskedUnphasedGenotyping (genotype())"],
               "stub": []}
 ASSUMPTIONS = ["an operation that raises in every form tried is recorded as rejected (C03 does not say every argument is accepted) provided receiver and operands are unchanged",
@@ -58,6 +58,8 @@ def generate(R, tier):
         present["vrnt_name"] = True
         present["trait"] = True
     sizes = {a: R.choice([1, 1, 2, 3, 3, 4, 5]) for a in axes}
+    if mm.ADAPT[key][1].count("taxa") >= 3:
+        sizes["taxa"] = min(sizes["taxa"], 4)
     if "phase" in sizes:
         sizes["phase"] = 2
     if "aux" in sizes:
